@@ -256,7 +256,13 @@ fn exp_file_entries(d: &Dec) -> Exp {
             Value::Null
         } else {
             match digest_hex_len(algo) {
-                Some(l) if l == digests[k].len() => json!({"hex": digests[k], "algo": algo}),
+                Some(l) if l == digests[k].len() => {
+                    // a text of the right length that is not hexadecimal is not a digest: an error, or the stored text (never another value)
+                    if !digests[k].bytes().all(|b| b.is_ascii_hexdigit()) {
+                        contradictory = true;
+                    }
+                    json!({"hex": digests[k], "algo": algo})
+                }
                 Some(_) => {
                     // the length does not fit the recorded algorithm: an error, or the stored digest under the stored algorithm
                     contradictory = true;
@@ -818,6 +824,9 @@ fn groups() -> Vec<Group> {
             // hex digits are not case-normalised by the format
             Dev::Set(t(T::RPMTAG_FILEDIGESTS), Val::strs(&[&d("A1", 32), &d("bC", 32), ""])),
             Dev::Multi(vec![Dev::Drop(t(T::RPMTAG_FILEDIGESTALGO)), Dev::Set(t(T::RPMTAG_FILEDIGESTS), Val::strs(&[&d("C3", 16), &d("d4", 16), &d("Ee", 16)]))]),
+            // texts of the right length that are not hexadecimal
+            Dev::Set(t(T::RPMTAG_FILEDIGESTS), Val::strs(&[&d("g1", 32), &d("-_", 32), ""])),
+            Dev::Set(t(T::RPMTAG_FILEDIGESTS), Val::strs(&[&format!("{}é", d("a", 62)), &d("b2", 32), ""])),
             // empty file list
             Dev::Set(t(T::RPMTAG_BASENAMES), Val::strs(&[])),
         ],
